@@ -209,6 +209,8 @@ theorem step_dle {t : Topo} {s s' : State} {l : Label} (h : step t s l = some s'
         (DLe.of_eq rfl rfl rfl : DQuiet t s { s with downOpen := upd s.downOpen e false }).trans
           (dle_shutdownNode t (by simpa [State.gone] using hp))
       split at h
+      · cases h; exact dle_systemError t hp
+      split at h
       · cases h; exact hclose.trans (DLe.of_eq rfl rfl rfl)
       split at h
       · cases h; exact dle_shutdownNode t hp
@@ -245,7 +247,10 @@ theorem step_dle {t : Topo} {s s' : State} {l : Label} (h : step t s l = some s'
     have hp := gone_false_of_loopOk hg.1.1.1
     refine DQuiet.dle ?_ _
     split at h
-    · split at h <;> cases h
+    · split at h
+      · cases h
+      split at h <;> cases h
+      · exact dle_systemError t hp
       exact (DLe.of_eq rfl rfl rfl : DQuiet t s { s with upOpen := upd s.upOpen n false }).trans
         (dle_shutdownNode t (by simpa [State.gone] using hp))
     · rename_i m rest hin
@@ -390,7 +395,10 @@ theorem reader_strict {t : Topo} (wf : t.WF) {s s' : State} (hi : Inv t s) {l : 
       refine ⟨hlt, hg.1.1.2, hp, ?_⟩
       split at h
       · rename_i hin
+        split at h
+        · cases h
         split at h <;> cases h
+        · exact Or.inl ⟨hin, by simp [systemError, shutdownNode, finishShutdown, baseShutdown, State.gone]⟩
         exact Or.inl ⟨hin, by simp [State.gone]⟩
       · rename_i m rest hin
         right
